@@ -4,6 +4,7 @@ package main
 
 import (
 	"strings"
+	"time"
 
 	"github.com/seaweedfs/fuse/fs"
 
@@ -21,7 +22,11 @@ func main() {
 	o := tr.ParseFlags()
 	w := tr.NewWriter(o.Out)
 	defer w.Close()
+	timeouts := 0
 	for _, ex := range tr.ReadScript(o.Script) {
+		if timeouts >= 3 {
+			break
+		}
 		cache := filesys.VerifNewFsCache()
 		ids := map[fs.Node]int{}
 		lookup := func(p util.FullPath) int {
@@ -41,7 +46,14 @@ func main() {
 			if tr.S(e, "ev") == "snap" || tr.S(e, "ev") == "panic" {
 				continue
 			}
-			pan := tr.Guard(func() { step(cache, ids, lookup, e) })
+			pan, timedOut := tr.GuardT(10*time.Second, func() { step(cache, ids, lookup, e) })
+			if timedOut {
+				// the cache operation never returned: recorded, and the run is cut short (the abandoned
+				// goroutine may spin forever)
+				w.Emit(tr.Ev{"ev": "timeout", "op": e})
+				timeouts++
+				break
+			}
 			if pan != "" {
 				w.Emit(tr.Ev{"ev": "panic", "op": e, "msg": pan})
 				break
